@@ -70,6 +70,7 @@ type ssoP struct {
 	Flate     string // DEFLATE block structure on the Redirect binding (msg.DeflateKind): "" | stored | huffman | fast | flushed | chunks
 	HTTP      string // HTTP-level shape of the same request (world.HTTPShapes)
 	Sibling   string // another provider instance alive in the same process (world.SiblingKinds)
+	LoginURL  string // the integrator's login UI URL (the prefix the stored id is appended to): "" absolute https | http | relative | odd-escape | bare-host
 	CType     string // Content-Type spelling of a POST: "" plain | charset | mixed-case | charset-quoted
 	Deflate   string // "" ok | truncated
 	XML       string // "" ok | ill-formed | root-logout | root-response | wrong-ns | empty-doc
@@ -222,6 +223,19 @@ func ssoBuild(p ssoP) (*world.World, *http.Request, *ssoTruth) {
 	w, err := world.WithSibling(p.Sibling, func() (*world.World, error) { return world.New(cfg) })
 	if err != nil {
 		panic(err)
+	}
+	switch p.LoginURL {
+	case "":
+	case "http":
+		w.Store.LoginURLBase = "http://login.example/ui/login?authRequestID="
+	case "relative":
+		w.Store.LoginURLBase = "/ui/login?authRequestID="
+	case "odd-escape":
+		w.Store.LoginURLBase = "https://login.example/ui/l%zzgin?x=a b&authRequestID="
+	case "bare-host":
+		w.Store.LoginURLBase = "login.example/ui?id="
+	default:
+		panic("ssoBuild: LoginURL " + p.LoginURL)
 	}
 	host := p.Host
 	if host == "" {
@@ -913,6 +927,8 @@ func (p *ssoP) set(name, val string) {
 		p.HTTP = val
 	case "Sibling":
 		p.Sibling = val
+	case "LoginURL":
+		p.LoginURL = val
 	case "Frac":
 		p.Frac = val
 	case "Transport":
